@@ -10,6 +10,8 @@ open Vm VmSteps Sem Gen
 
 /-! ## the fragment -/
 
+variable {V : String → Prop}
+
 def RangeOK (r : Range) : Prop :=
   RvOK r.first ∧ match r.last with
     | some l => RvOK l
@@ -39,7 +41,7 @@ def ItemOK : IterItem → Prop
   | .group n => RvOK n
   | .location n => RvOK n
 
-def LoopHdrOK : LoopHdr → Prop
+def LoopHdrOK (V : String → Prop) : LoopHdr → Prop
   | .forever => True
   | .count n => RvOK n
   | .while_ c => RvOK c
@@ -53,12 +55,12 @@ def LoopHdrOK : LoopHdr → Prop
 
 mutual
   /-- statements of the fragment -/
-  def FragStmt : Stmt → Prop
+  def FragStmt (V : String → Prop) : Stmt → Prop
     | .setReg r v => SettableReg r ∧ RvOK v
     | .units _ => True
     | .actAll _ => True
     | .setDefault => True
-    | .action _ ops => FragOperands ops
+    | .action _ ops => FragOperands V ops
     | .get name => RvOK name
     | .wait => True
     | .timeAt _ => True
@@ -67,8 +69,8 @@ mutual
     | .defRoutine _ _ _ => False
     | .call _ ps as => SimpleArgs as ∧ NoResultReg as ∧ ps.Nodup
     | .ret v => (match v with | some rv => RvOK rv | none => True)
-    | .ite c t e => RvOK c ∧ FragBlock t ∧ (match e with | some b => FragBlock b | none => True)
-    | .repeat_ h body => LoopHdrOK h ∧ FragBlock body
+    | .ite c t e => RvOK c ∧ FragBlock V t ∧ (match e with | some b => FragBlock V b | none => True)
+    | .repeat_ h body => LoopHdrOK V h ∧ FragBlock V body
     | .brk => True
     | .print v => RvOK v
     | .println v => (match v with | some rv => RvOK rv | none => True)
@@ -76,19 +78,19 @@ mutual
       ArgsOK as ∧ as.toList.length ≤ positionalCount (fmt.replace "\\n" "\n").toList ∧
         "result" ∉ fieldNames (fmt.replace "\\n" "\n").toList
     | .stage rows cols _ => ORangeOK rows ∧ ORangeOK cols
-  def FragBlock : Block → Prop
+  def FragBlock (V : String → Prop) : Block → Prop
     | .nil => True
-    | .cons s rest => FragStmt s ∧ FragBlock rest
-  def FragOperand : Operand_ → Prop
+    | .cons s rest => FragStmt V s ∧ FragBlock V rest
+  def FragOperand (V : String → Prop) : Operand_ → Prop
     | .light _ => True
     | .group _ => True
     | .location _ => True
     | .zone _ r => RangeOK r
     | .matrixInline _ rows cols _ => ORangeOK rows ∧ ORangeOK cols
-    | .matrixBlock _ body => FragBlock body
-  def FragOperands : Operands → Prop
+    | .matrixBlock _ body => FragBlock V body
+  def FragOperands (V : String → Prop) : Operands → Prop
     | .nil => True
-    | .cons o rest => FragOperand o ∧ FragOperands rest
+    | .cons o rest => FragOperand V o ∧ FragOperands V rest
 end
 
 /-- where control is after a piece of code: past it, or — after `break` — at the enclosing
@@ -730,36 +732,36 @@ macro "cat " h:term : term =>
 
 /-! ## blocks, operands -/
 
-def BlockGoal (img : Image) (K : Ctx) (f : Nat) : Prop :=
-  ∀ b, FragBlock b → ∀ (σ σ' : S) (o : Outcome) (s : State) (pc exit : Nat) (stk : Stk),
+def BlockGoal (V : String → Prop) (img : Image) (K : Ctx) (f : Nat) : Prop :=
+  ∀ b, FragBlock V b → ∀ (σ σ' : S) (o : Outcome) (s : State) (pc exit : Nat) (stk : Stk),
     Sim K stk σ s → s.pc = (pc : Int) → CodeAt img pc (resolve (genBlock b) pc exit) →
     execBlock f b σ = (o, σ') → (o = .normal ∨ o = .brk) →
     Exec img s (At K (Target pc (genBlock b).length exit o) stk [] σ')
 
-def StmtsGoal (img : Image) (K : Ctx) (f : Nat) : Prop := ∀ st, FragStmt st → StmtGoal img K st f
+def StmtsGoal (V : String → Prop) (img : Image) (K : Ctx) (f : Nat) : Prop := ∀ st, FragStmt V st → StmtGoal img K st f
 
-def OperandGoal (img : Image) (K : Ctx) (f : Nat) : Prop :=
-  ∀ (k : ActKind) (op : Operand_), FragOperand op →
+def OperandGoal (V : String → Prop) (img : Image) (K : Ctx) (f : Nat) : Prop :=
+  ∀ (k : ActKind) (op : Operand_), FragOperand V op →
   ∀ (σ σ' : S) (o : Outcome) (s : State) (pc exit : Nat) (stk : Stk),
     Sim K stk σ s → s.pc = (pc : Int) →
     CodeAt img pc (resolve (genOperand op ++ ins [opcodeOf k]) pc exit) →
     execOperand f k op σ = (o, σ') → (o = .normal ∨ o = .brk) →
     Exec img s (At K (Target pc ((genOperand op).length + 1) exit o) stk [] σ')
 
-def OperandsGoal (img : Image) (K : Ctx) (f : Nat) : Prop :=
-  ∀ (k : ActKind) (ops : Operands), FragOperands ops →
+def OperandsGoal (V : String → Prop) (img : Image) (K : Ctx) (f : Nat) : Prop :=
+  ∀ (k : ActKind) (ops : Operands), FragOperands V ops →
   ∀ (σ σ' : S) (o : Outcome) (s : State) (pc exit : Nat) (stk : Stk),
     Sim K stk σ s → s.pc = (pc : Int) →
     CodeAt img pc (resolve (genOperands k ops) pc exit) →
     execOperands f k ops σ = (o, σ') → (o = .normal ∨ o = .brk) →
     Exec img s (At K (Target pc (genOperands k ops).length exit o) stk [] σ')
 
-theorem block_zero : BlockGoal img K 0 := by
+theorem block_zero : BlockGoal V img K 0 := by
   intro b _ σ σ' o s pc exit stk _ _ _ h ho
   simp only [execBlock, Prod.mk.injEq] at h
   rcases ho with rfl | rfl <;> simp at h
 
-theorem block_step (f : Nat) (ihS : StmtsGoal img K f) (ihB : BlockGoal img K f) : BlockGoal img K (f + 1) := by
+theorem block_step (f : Nat) (ihS : StmtsGoal V img K f) (ihB : BlockGoal V img K f) : BlockGoal V img K (f + 1) := by
   intro b hb σ σ' o s pc exit stk sim hpc hc h ho
   cases b with
   | nil =>
@@ -955,8 +957,8 @@ theorem andThen_cases {r : Outcome × S} {K : S → Outcome × S} {o : Outcome} 
     obtain ⟨rfl, rfl⟩ := h
     exact Or.inr ⟨rfl, hn⟩
 
-theorem operand_matrixBlock (f : Nat) (ihB : BlockGoal img K f) (k : ActKind) (n : NameSpec)
-    (body : Block) (hb : FragBlock body)
+theorem operand_matrixBlock (f : Nat) (ihB : BlockGoal V img K f) (k : ActKind) (n : NameSpec)
+    (body : Block) (hb : FragBlock V body)
     (σ σ' : S) (o : Outcome) (s : State) (pc exit : Nat) (stk : Stk)
     (sim : Sim K stk σ s) (hpc : s.pc = (pc : Int))
     (hc : CodeAt img pc (resolve (genOperand (.matrixBlock n body) ++ ins [opcodeOf k]) pc exit))
@@ -993,12 +995,12 @@ theorem operand_matrixBlock (f : Nat) (ihB : BlockGoal img K f) (k : ActKind) (n
     exact ihB body hb s1 σ' .brk t1 _ exit stk ht1.2 ht1.1 hcb hbody (Or.inr rfl)
 
 
-theorem operand_zero : OperandGoal img K 0 := by
+theorem operand_zero : OperandGoal V img K 0 := by
   intro k op _ σ σ' o s pc exit stk _ _ _ h ho
   simp only [execOperand, Prod.mk.injEq] at h
   rcases ho with rfl | rfl <;> simp at h
 
-theorem operand_step (f : Nat) (ihB : BlockGoal img K f) : OperandGoal img K (f + 1) := by
+theorem operand_step (f : Nat) (ihB : BlockGoal V img K f) : OperandGoal V img K (f + 1) := by
   intro k op hop σ σ' o s pc exit stk sim hpc hc h ho
   cases op with
   | light n =>
@@ -1028,13 +1030,13 @@ theorem operand_step (f : Nat) (ihB : BlockGoal img K f) : OperandGoal img K (f 
   | matrixBlock n body =>
     exact operand_matrixBlock f ihB k n body hop σ σ' o s pc exit stk sim hpc hc h ho
 
-theorem operands_zero : OperandsGoal img K 0 := by
+theorem operands_zero : OperandsGoal V img K 0 := by
   intro k op _ σ σ' o s pc exit stk _ _ _ h ho
   simp only [execOperands, Prod.mk.injEq] at h
   rcases ho with rfl | rfl <;> simp at h
 
-theorem operands_step (f : Nat) (ihO : OperandGoal img K f) (ihOs : OperandsGoal img K f) :
-    OperandsGoal img K (f + 1) := by
+theorem operands_step (f : Nat) (ihO : OperandGoal V img K f) (ihOs : OperandsGoal V img K f) :
+    OperandsGoal V img K (f + 1) := by
   intro k ops hops σ σ' o s pc exit stk sim hpc hc h ho
   cases ops with
   | nil =>
@@ -1067,8 +1069,8 @@ theorem operands_step (f : Nat) (ihO : OperandGoal img K f) (ihOs : OperandsGoal
       subst hb'
       exact ihO k op hops.1 σ σ' .brk s pc exit stk sim hpc hc'.left hop (Or.inr rfl)
 
-theorem stmt_action (f : Nat) (ihOs : OperandsGoal img K f) (k : ActKind) (ops : Operands)
-    (hops : FragOperands ops) : StmtGoal img K (.action k ops) (f + 1) := by
+theorem stmt_action (f : Nat) (ihOs : OperandsGoal V img K f) (k : ActKind) (ops : Operands)
+    (hops : FragOperands V ops) : StmtGoal img K (.action k ops) (f + 1) := by
   intro σ σ' o s pc exit stk sim hpc hc h ho
   simp only [execStmt] at h
   have h' : andThen ((powerSet k σ).device fun vm => execInstr default vm .wait)
@@ -1097,8 +1099,8 @@ theorem stmt_action (f : Nat) (ihOs : OperandsGoal img K f) (k : ActKind) (ops :
 
 /-! ## `if` -/
 
-theorem stmt_ite_none (f : Nat) (ihB : BlockGoal img K f) (c : Rv) (hcnd : RvOK c) (t : Block)
-    (ht : FragBlock t) : StmtGoal img K (.ite c t none) (f + 1) := by
+theorem stmt_ite_none (f : Nat) (ihB : BlockGoal V img K f) (c : Rv) (hcnd : RvOK c) (t : Block)
+    (ht : FragBlock V t) : StmtGoal img K (.ite c t none) (f + 1) := by
   intro σ σ' o s pc exit stk sim hpc hc h ho
   simp only [genStmt, genIf, resolve_append, resolve_ins, ins_length, resolve, List.length_append,
     List.length_cons, List.length_nil] at hc ⊢
@@ -1124,8 +1126,8 @@ theorem stmt_ite_none (f : Nat) (ihB : BlockGoal img K f) (c : Rv) (hcnd : RvOK 
         (by simp) ht0.2 ht0.1 hj (by simp [hres, hx]; omega)).mono fun t1 ht1 => ?_
       simpa [Target] using ht1
 
-theorem stmt_ite_some (f : Nat) (ihB : BlockGoal img K f) (c : Rv) (hcnd : RvOK c) (t e : Block)
-    (ht : FragBlock t) (he : FragBlock e) : StmtGoal img K (.ite c t (some e)) (f + 1) := by
+theorem stmt_ite_some (f : Nat) (ihB : BlockGoal V img K f) (c : Rv) (hcnd : RvOK c) (t e : Block)
+    (ht : FragBlock V t) (he : FragBlock V e) : StmtGoal img K (.ite c t (some e)) (f + 1) := by
   intro σ σ' o s pc exit stk sim hpc hc h ho
   simp only [genStmt, genIf, resolve_append, resolve_ins, ins_length, resolve, List.length_append,
     List.length_cons, List.length_nil] at hc ⊢
